@@ -400,6 +400,9 @@ async fn run(case: &Case, rep: &mut CaseReport) -> Option<(String, String)> {
     let q_max_model = max_nodes_response.unwrap_or(16);
     let mut received_valid = 0usize;
     let mut early_ids: HashSet<ids::Id> = HashSet::new();
+    // valid records of the packets the request collects until it completes (a packet announcing a total
+    // <= 1 completes the request on its own: what was collected before is dropped by design)
+    let mut collected_valid: Vec<ids::Id> = Vec::new();
     for resp in &deliveries {
         let ResponseBody::Nodes { total, nodes } = &resp.body else { continue };
         delivered_count += 1;
@@ -410,6 +413,15 @@ async fn run(case: &Case, rep: &mut CaseReport) -> Option<(String, String)> {
                 let dd = if e.node_id().raw() == p_id { 0 } else { dist(&p_id, e) };
                 if wanted.contains(&dd) {
                     received_valid += 1;
+                }
+            }
+            if *total <= 1 {
+                collected_valid.clear();
+            }
+            for e in nodes {
+                let dd = if e.node_id().raw() == p_id { 0 } else { dist(&p_id, e) };
+                if wanted.contains(&dd) && e.node_id().raw() != q.id {
+                    collected_valid.push(e.node_id().raw());
                 }
             }
             for e in nodes {
@@ -479,6 +491,22 @@ async fn run(case: &Case, rep: &mut CaseReport) -> Option<(String, String)> {
                 format!("ban/honest-responder-banned{}", if zero_with_others { "/distance-0-with-others" } else { "" }),
                 format!("the responder answered {ds:?} exactly as this implementation prescribes ({packets_total} packets) and was banned (ip {ban_ip}, node {ban_node})"),
             ));
+        }
+        // 1c. whatever the request collected until it completed is handed on in full - also when that is
+        // more than max_nodes_response records (the requester stops COLLECTING then, it does not cut)
+        if completed {
+            let got: HashSet<ids::Id> = discovered.iter().map(|e| e.node_id().raw()).collect();
+            if collected_valid.len() > max_nodes_response.unwrap_or(16) {
+                rep.class("honest-answer/more-valid-records-collected-than-max-nodes-response");
+            }
+            for eid in &collected_valid {
+                if !got.contains(eid) {
+                    return Some((
+                        "nodes/valid-record-dropped".into(),
+                        format!("record {} of an honest answer to {ds:?} arrived in a packet the request collected before it completed ({} valid records collected, max_nodes_response {}), but it was not accepted", hex::encode(&eid[..4]), collected_valid.len(), max_nodes_response.unwrap_or(16)),
+                    ));
+                }
+            }
         }
         // 1b. nothing valid is missing from a loss-free answer (unless the requester is configured to
         // stop collecting early: it completes the request once it holds max_nodes_response records,
